@@ -102,15 +102,10 @@ def format_trace(tid, text, opt, second=True):
             tr['out2sig'] = sig_of_pairs(lexer.tokenize(o2))
         except Exception as e:  # noqa
             tr['out2'] = cps('<<%s>>' % type(e).__name__)
-    # instrumented run of the same pipeline (the four lines of sqlparse.format)
+    # instrumented run of the real sqlparse.format(): the stages of the stack it builds are wrapped
+    # at the moment FilterStack.run is entered (no source hook; the patch is undone afterwards)
+    orig_run = engine.FilterStack.run
     try:
-        stack = engine.FilterStack()
-        options = formatter.validate_options(dict(kw))
-        stack = formatter.build_filter_stack(stack, options)
-        stack.postprocess.append(filters.SerializerUnicode())
-        tr['stages'] = [type(f).__name__ for f in stack.preprocess] + ['|'] + \
-                       [type(f).__name__ for f in stack.stmtprocess] + ['|'] + \
-                       [type(f).__name__ for f in stack.postprocess]
         cur = {'stmt': None}
         depth = [0]
         events = []
@@ -151,14 +146,26 @@ def format_trace(tid, text, opt, second=True):
                     cur['stmt'].append({'f': name, 'sig': sig_of_pairs((t.ttype, t.value) for t in project.leaves(r))})
                 return r
             f.process = process
-        for f in stack.stmtprocess:
-            wrap_stmt(f)
-        for i, f in enumerate(stack.postprocess):
-            wrap_post(f, i == 0)
-        out_w = ''.join(stack.run(text))
+
+        def run(stack, sql, encoding=None):
+            tr['stages'] = [type(f).__name__ for f in stack.preprocess] + ['|'] + \
+                           [type(f).__name__ for f in stack.stmtprocess] + ['|'] + \
+                           [type(f).__name__ for f in stack.postprocess]
+            for f in stack.stmtprocess:
+                wrap_stmt(f)
+            for i, f in enumerate(stack.postprocess):
+                wrap_post(f, i == 0)
+            return orig_run(stack, sql, encoding)
+        engine.FilterStack.run = run
+        try:
+            out_w = sqlparse.format(text, **dict(kw))
+        finally:
+            engine.FilterStack.run = orig_run
         tr['wrapped_ok'] = (out_w == out)
         if tr['wrapped_ok']:
             tr['stmts'] = [{'stages': ev} for ev in events]
     except Exception:
         tr['wrapped_ok'] = False
+    finally:
+        engine.FilterStack.run = orig_run
     return tr
